@@ -229,7 +229,28 @@ def run_impl(c):
         src = src[0] if len(src) == 1 else src
         snk = snk[0] if len(snk) == 1 else snk
     kw = lambda: dict(populations=None if pops is None else pops.copy())
-    return {"q": _call(lambda: committors(mk(), src, snk), _vec),
+    hist = None
+    if c["fmt"] in ("dense", "lil") and _valid(c):
+        # history probe: analyse a matrix, overwrite the SAME object in place with the lag-2 model
+        # (same stationary populations, still reversible), analyse again; must equal a fresh computation
+        try:
+            T2 = Tf @ Tf
+            buf = mk()
+            for fn in (tpt.reactive_fluxes, tpt.net_fluxes, tpt.reactive_populations):
+                fn(buf, src, snk, **kw())
+            if c["fmt"] == "dense":
+                buf[...] = T2
+                fresh = lambda: T2.copy()
+            else:
+                buf[:, :] = T2
+                fresh = lambda: sp.lil_matrix(T2)
+            dense = lambda x: x.toarray() if sp.issparse(x) else np.asarray(x)
+            hist = all(np.array_equal(dense(fn(buf, src, snk, **kw())), dense(fn(fresh(), src, snk, **kw())), equal_nan=True)
+                       for fn in (tpt.reactive_fluxes, tpt.net_fluxes, tpt.reactive_populations))
+        except Exception as ex:
+            hist = "err:" + type(ex).__name__
+    return {"hist": hist,
+            "q": _call(lambda: committors(mk(), src, snk), _vec),
             "F": _call(lambda: tpt.reactive_fluxes(mk(), src, snk, **kw()), _mat),
             "N": _call(lambda: tpt.net_fluxes(mk(), src, snk, **kw()), _mat),
             "R": _call(lambda: tpt.reactive_populations(mk(), src, snk, **kw()), _vec)}
@@ -253,6 +274,8 @@ def oracle(c, r):
                 out.append(("malformed-accepted", "%s accepted a populations vector of length %d for %d states: %s"
                             % (k, c["badlen"], n, str(r[k])[:120])))
         return out
+    if r.get("hist") is False:
+        out.append(("history-dependence", "re-analysing an array overwritten in place (lag-2 model in the same object) differs from a fresh computation"))
     for k in ("q", "F", "N"):
         if "val" not in r[k]:
             out.append(("no-value-" + k, "%s did not return a finite array: %s" % (k, r[k])))
